@@ -82,6 +82,10 @@ package client
 //@ at call cache.(*TableCache).Purge requires wheld(db.cacheMutex) >= 1 && reconnecting
 // restarting one of several monitors never purges what the others have loaded (C16, F8)
 //@ at call cache.(*TableCache).Purge requires len(db.monitors) == 1
+// while the monitor request is outstanding notifications are buffered - for an
+// additional monitor as for the first: the one that follows the reply on the
+// wire may be handled before the reply has been applied (C01)
+//@ at call rpc2.(*Client).CallWithContext requires db.deferUpdates
 //@ ensures_ok (cookie.DatabaseName in o.databases) ==> !o.databases[cookie.DatabaseName].deferUpdates
 //@ ensures_ok (cookie.DatabaseName in o.databases) ==> len(o.databases[cookie.DatabaseName].deferredUpdates) == 0
 
